@@ -379,6 +379,13 @@ def content_list(b):
         for e in b[1:]) + ']'
 
 
+def first_diff(a, b):
+    for i, (x, y) in enumerate(zip(a, b)):
+        if x != y:
+            return f'entry {i}: {x!r} vs {y!r}'
+    return f'lengths {len(a)} vs {len(b)}'
+
+
 def draws_of(trace):
     out = {}
     for e in trace:
@@ -405,6 +412,21 @@ def run_case(case, tape, ctx):
                  'binary scores')
     compare_traces('nrt', nrt['trace'], 'nrt-again', nrt2['trace'], viol,
                    'C10-2', 'nrt-trace-differs', stats)
+    # ... and so does a run after main.reset() in a process that rendered
+    # another (longer) program before
+    import copy
+    prior = copy.deepcopy(prog)
+    prior['routines'][0]['body'] += [['wait', 7.5], ['rec'], ['msg', 99999]]
+    nrt3 = S.subrun(tape, lambda st, emit: W.run_nrt(prog, st, emit,
+                                                     prior=prior))
+    if nrt3['raw'] != nrt['raw']:
+        viol.add('C10-2', 'nrt-score-differs-after-reset',
+                 'the score of the program rendered after main.reset() '
+                 'differs from the score of a fresh process: '
+                 f'{first_diff(nrt["score"], nrt3["score"])}')
+    compare_traces('nrt', nrt['trace'], 'nrt-after-reset', nrt3['trace'],
+                   viol, 'C10-2', 'nrt-trace-differs-after-reset', stats)
+    stats['reset-runs'] = 1
     # 3. a routine's random stream depends only on its (inherited) seed
     fam = families(prog)
     seeded = all(fam.get(e['r']) is not None for e in nrt['trace']
